@@ -33,3 +33,56 @@ package filesystem
 //gvc:  ensures name: forall(a, 0, len(idx.Entries), idx.Entries[a] != nil ==> same_string(result.Entries[a].Name, idx.Entries[a].Name))
 //gvc:  ensures untouched: forall(a, 0, len(idx.Entries), idx.Entries[a] == old(idx.Entries[a]))
 //gvc:end
+
+// The cache holds one index object (#held, nil when empty). Interface
+// contract of IndexCache (trusted: statIndexCache is six lines of field
+// assignments under a mutex and is not followed here).
+//gvc:ghost IndexCache.held int
+
+//gvc:func IndexCache.Set
+//gvc:  trusted
+//gvc:  params c idx modTime fileSize
+//gvc:  modifies c.#held
+//gvc:  ensures c.#held == idx
+//gvc:end
+
+//gvc:func IndexCache.Get
+//gvc:  trusted
+//gvc:  params c modTime fileSize
+//gvc:  ensures result == nil || result == c.#held
+//gvc:end
+
+//gvc:func IndexCache.Clear
+//gvc:  trusted
+//gvc:  params c
+//gvc:  modifies c.#held
+//gvc:  ensures c.#held == nil
+//gvc:end
+
+// Index: the index handed to the caller is never the cached object and shares
+// no Entry with it, on every path (cache hit, decode + cache fill, missing
+// file).
+//gvc:func (*IndexStorage).Index
+//gvc:  props C20
+//gvc:  theory int
+//gvc:  opt coarse
+//gvc:  opt frame args
+//gvc:  results i err
+//gvc:  requires nn: s != nil
+//gvc:  requires heldlive: s.cache != nil ==> allocated(s.cache.#held)
+//gvc:  modifies s.cache.#held
+//gvc:  ensures private: err == nil && i != nil && s.cache != nil && s.cache.#held != nil ==> i != s.cache.#held && forall(a, 0, len(i.Entries), forall(b, 0, len(field(s.cache.#held, "index.Index.Entries")), i.Entries[a] == nil || i.Entries[a] != field(s.cache.#held, "index.Index.Entries")[b]))
+//gvc:end
+
+// SetIndex: what goes into the cache is a private copy, never the caller's
+// index or one of its entries.
+//gvc:func (*IndexStorage).SetIndex
+//gvc:  props C20
+//gvc:  theory int
+//gvc:  opt coarse
+//gvc:  opt frame args
+//gvc:  results err
+//gvc:  requires nn: s != nil && idx != nil
+//gvc:  modifies s.cache.#held
+//gvc:  sink Set requires private: arg0 != idx && forall(a, 0, len(idx.Entries), forall(b, 0, len(arg0.Entries), arg0.Entries[b] == nil || arg0.Entries[b] != idx.Entries[a]))
+//gvc:end
